@@ -1626,6 +1626,8 @@ EnsureSizeAux(uint32 size, bool setNumItems, uint32 extraPreallocs, ItemType ** 
 {
    if (retOldArray) *retOldArray = NULL;  // default value, will be set non-NULL iff the old array needs deleting later
 
+   if ((setNumItems == false)&&(size < _itemCount)) size = _itemCount;  // we may shrink, but never below the number of items we have to keep
+
    if ((_queue == NULL)||(allowShrink ? (_queueSize != (size+extraPreallocs)) : (_queueSize < size)))
    {
       const uint32 sqLen = ARRAYITEMS(_smallQueue);
@@ -1640,8 +1642,9 @@ EnsureSizeAux(uint32 size, bool setNumItems, uint32 extraPreallocs, ItemType ** 
 
       if (_queue)  // just to make Coverity happy
       {
-         for (uint32 i=0; i<_itemCount; i++)
-            newQueue[i] = QQ_PlunderItem(GetItemAtUnchecked(i));  // we know that (_itemCount < size)
+         const uint32 numItemsToKeep = muscleMin(_itemCount, size);  // (size < _itemCount) only if we were asked to shrink and drop items
+         for (uint32 i=0; i<numItemsToKeep; i++)
+            newQueue[i] = QQ_PlunderItem(GetItemAtUnchecked(i));
       }
 
       if (setNumItems)
